@@ -48,6 +48,7 @@ package ice
 //@ func (*UDPMuxDefault).registerConnForAddress
 //@   props C12
 //@   site call removeAddress#1 assert previous-owner-loses-exactly-this-binding: arg0 == existing && arg1 == addr && existing == old(m.addressMap[addr])
+//@   site call removeAddress#1 assert the-owner-of-a-binding-keeps-listing-it: existing != conn
 //@   ensures last-writer-owns-the-address: !old(closed(m.closedChan)) && m.addressMap != nil ==> has(m.addressMap, addr) && m.addressMap[addr] == conn
 //@   ensures closed-mux-registers-nothing: old(closed(m.closedChan)) ==> unchangedExcept()
 
